@@ -133,6 +133,9 @@ func runRace(c RaceCase) {
 		defer vhook.PinRate(0)
 	}
 	s.Start()
+	if c.Rounds%3 == 0 {
+		s.Start() // a second Start must not start a second flusher
+	}
 	var wg sync.WaitGroup
 	if c.Fault > 0 {
 		wg.Add(1)
